@@ -375,3 +375,27 @@ func BatchValues() []*rdbgen.Value {
 	add(rdbgen.ZipmapVal(pairs, 0), "batch")
 	return out
 }
+
+
+// LZFFamily: strings compressed with one back-reference of every (distance, copy length)
+// relation: distance 1..12 x copy length 3..16 and the long form, i.e. non-overlapping,
+// exactly adjacent, partially and fully overlapping copies, each followed by a literal tail.
+func LZFFamily() []rdbgen.Str {
+	var out []rdbgen.Str
+	for period := 1; period <= 12; period++ {
+		for _, n := range []int{3, 4, 7, 8, 9, 10, 11, 12, 13, 14, 16, 40, 264} {
+			seed := make([]byte, period)
+			for i := range seed {
+				seed[i] = byte('A' + (i*5+period)%26)
+			}
+			v := make([]byte, period+n)
+			for i := range v {
+				v[i] = seed[i%period]
+			}
+			s := rdbgen.LZFStr(v, "ref", period, n)
+			s.Form = "lzf-d" + string([]byte{byte('0' + period/10), byte('0' + period%10)}) + "-n"
+			out = append(out, s)
+		}
+	}
+	return out
+}
